@@ -492,7 +492,7 @@ def run_property(pid, tier):
     counters = {}
     for cfg, r in results:
         for k, v in r.get("counters", {}).items():
-            counters[k] = counters.get(k, 0) + v
+            counters[k] = max(counters.get(k, 0), v) if k.startswith(("max_", "depth_")) else counters.get(k, 0) + v
     cov = dict(
         evaluations=ev,
         distinct_nontrivial=dn,
